@@ -207,20 +207,18 @@ def slew(vc):
             mode="R", note="a radar reports a target visible iff the common checks (range limits, line of sight, masks: O-C14-vis.order) pass AND range <= rcs^(1/4) * R_aux with rcs = 4 pi A^2 / lambda^2; the miss reason is the common one if that fails first, RADAR_SENSITIVITY otherwise")
 def radar(vc):
     from resonaate.sensors.sensor_base import Explanation as E
-    if not vc.symbolic:
-        vc.ensure("O-C02-radar.order", True)
-        vc.ensure("O-C02-radar.sensitivity", True)
-        return
     base_ok = vc.bool("base_ok")
     rng = vc.real("rng", 1, 1e6)
     vcs, lam, aux = vc.real("vcs", 1e-3, 1e3), vc.real("lam", 1e-3, 10), vc.real("aux", 1, 1e5)
-    vc.stub(SB + "Sensor.isVisible", lambda self, *a: (True, E.VISIBLE) if base_ok else (False, E.ELEVATION_MASK))
-    vc.stub(RD + "@getRange", lambda sl: rng)
+    vc.install(SB + "Sensor.isVisible", lambda self, *a: (True, E.VISIBLE) if base_ok else (False, E.ELEVATION_MASK))
+    vc.install(RD + "@getRange", lambda sl: rng)
     r = vc.new(RD + "Radar", wavelength=lam, max_range_aux=aux)
     ok, why = r.isVisible("TGT", vcs, 0.2, "SEZ")
     rcs = 4 * vc.pi * vcs * vcs / (lam * lam)
-    maxr = sym.fn_uf("pow", rcs, 0.25) * aux
-    vc.ensure("O-C02-radar.sensitivity", vc.eq(r.maximumRangeTo(vcs), maxr))
+    maxr = (sym.fn_uf("pow", rcs, 0.25) if vc.symbolic else rcs ** 0.25) * aux
+    if not vc.symbolic:
+        vc.assume(abs(rng - maxr) > 1e-6 * maxr)
+    vc.ensure("O-C02-radar.sensitivity", vc.eq(r.maximumRangeTo(vcs), maxr, 0 if vc.symbolic else 1e-9 * maxr))
     b = bool(base_ok)
     within = rng <= maxr
     if not b:
@@ -328,10 +326,6 @@ TE = "resonaate.parallel.tasking_execution:"
             bounded="3 tasked sensors, 3 targets", assumes=["ray.get is the identity on values"],
             note="a task-execution job calls collectObservations exactly once per tasked sensor, with the estimate's state, the primary (tasked) target and all OTHER targets as background; it returns every observation and miss of those calls, once each, and one pointing record per sensor")
 def execute(vc):
-    if not vc.symbolic:
-        vc.ensure("O-C02-execute.per-sensor", True)
-        vc.ensure("O-C02-execute.aggregation", True)
-        return
     calls = []
 
     class Sensors:
@@ -344,8 +338,8 @@ def execute(vc):
     est = _NS(simulation_id=2, eci_state="EST2")
     tgts = {1: _NS(simulation_id=1), 2: _NS(simulation_id=2), 3: _NS(simulation_id=3)}
     sens = [_NS(simulation_id=s, sensors=Sensors(s)) for s in (10, 11, 12)]
-    vc.stub(TE + "@ray", _NS(get=lambda h: h))
-    vc.stub(TE + "@TaskExecutionResult", lambda **kw: _NS(**kw))
+    vc.install(TE + "@ray", _NS(get=lambda h: h))
+    vc.install(TE + "@TaskExecutionResult", lambda **kw: _NS(**kw))
     f = vc.fn(TE + "asyncExecuteTasking")
     res = f(_NS(estimate_handle=est, target_handles=dict(tgts), sensor_handle_list=sens))
     ok = [c[0] for c in calls] == [10, 11, 12] and all(c[1] == "EST2" and c[2] is tgts[2] and c[3] == [tgts[1], tgts[3]] for c in calls)
